@@ -261,7 +261,9 @@ pub fn scenarios(tier: Tier) -> Vec<Scenario> {
 
 /// E1 part: every schedule prefix of a small cluster of real node cores (bounded depth, with a
 /// noisy Byzantine validator), each completed fairly; the window must end decided at every node.
-fn run_liveness_prefixes(report: &Report, tier: Tier) -> Value {
+/// The cluster systems (real node cores + one Byzantine validator) explored by C02-A; C05 runs the
+/// same systems with its own-vote monitors.
+pub fn liveness_systems() -> Vec<crate::cluster::ClusterSys> {
     use crate::cluster::{ClusterAlphabet, ClusterSys, LiveSys, PrefixOp};
     use crate::common::make_epoch;
     use crate::engine::{BfsLimits, bfs};
@@ -342,7 +344,7 @@ fn run_liveness_prefixes(report: &Report, tier: Tier) -> Value {
     }
     lagging.prefix.extend([PrefixOp::ByzTo(2, ahead.clone()), PrefixOp::ByzTo(3, ahead.clone()), PrefixOp::DeliverAmong(ahead.clone())]);
     lagging.prefix.extend([PrefixOp::BlockTo(1, ahead.clone()), PrefixOp::ByzTo(4, ahead.clone()), PrefixOp::DeliverAmong(ahead.clone()), PrefixOp::ByzTo(5, ahead.clone()), PrefixOp::DeliverAmong(ahead.clone())]);
-    let systems = vec![
+    vec![
         lagging,
         two_slots,
         second,
@@ -367,7 +369,13 @@ fn run_liveness_prefixes(report: &Report, tier: Tier) -> Value {
             3,
             ClusterAlphabet { byz_votes: byz_votes(3, &full[..3]), forge: vec![(CK::Skip, 1, 0), (CK::NotarFb, 1, 0)], blocks: vec![(b(1, 0), g)], invalid: vec![1], windows: vec![0] },
         ),
-    ];
+    ]
+}
+
+fn run_liveness_prefixes(report: &Report, tier: Tier) -> (Value, usize, usize, usize, Vec<Value>) {
+    use crate::cluster::LiveSys;
+    use crate::engine::{BfsLimits, bfs};
+    let systems = liveness_systems();
     if let Ok(spec) = std::env::var("C02_DEBUG") {
         // debugging aid: C02_DEBUG="<system index>:<a,b,c>" replays a prefix and prints the completion
         let (si, acts) = spec.split_once(':').unwrap();
@@ -395,6 +403,8 @@ fn run_liveness_prefixes(report: &Report, tier: Tier) -> Value {
     }
     let depths = [tier.pick(3, 7), tier.pick(3, 7), tier.pick(3, 8), tier.pick(4, 8), tier.pick(2, 7), tier.pick(3, 7)];
     let mut per = Vec::new();
+    let (mut tot_states, mut tot_trans, mut tot_compl) = (0usize, 0usize, 0usize);
+    let mut traces: Vec<Value> = Vec::new();
     for (inner, depth) in systems.into_iter().zip(depths) {
         let name = inner.name.clone();
         let stakes = inner.epoch.stakes.clone();
@@ -408,6 +418,10 @@ fn run_liveness_prefixes(report: &Report, tier: Tier) -> Value {
             "  {name}: prefix states={} transitions={} depth_completed={} fair completions={} max rounds={} decided shapes={:?} capped={:?}",
             st.states, st.transitions, st.depth_completed, completions, sys.max_rounds.load(std::sync::atomic::Ordering::Relaxed), shapes, st.capped
         );
+        tot_states += st.states;
+        tot_trans += st.transitions;
+        tot_compl += completions;
+        traces.extend(st.samples.iter().take(1).cloned());
         let mut j = st.to_json();
         j["system"] = json!(name);
         j["depth_bound"] = json!(depth);
@@ -417,7 +431,7 @@ fn run_liveness_prefixes(report: &Report, tier: Tier) -> Value {
         j["decided_shapes_slots_1_to_3"] = json!(shapes);
         per.push(j);
     }
-    json!(per)
+    (json!(per), tot_states, tot_trans, tot_compl, traces)
 }
 
 /// Debugging aid: C02_SLOW_ALL=<ms>,<slot> runs the n=4 all-links-slow scenario and prints the
@@ -462,8 +476,8 @@ pub fn run(tier: Tier) -> i32 {
         debug_slow(&spec);
         return 0;
     }
-    let report = Report::new("C02", tier, "fault_enumeration");
-    let live = run_liveness_prefixes(&report, tier);
+    let report = Report::new("C02", tier, "model_checking");
+    let (live, live_states, live_transitions, live_completions, live_traces) = run_liveness_prefixes(&report, tier);
     let scs = scenarios(tier);
     let total_ms = tier.pick(12_000u64, 16_000);
     let samples = std::sync::Mutex::new(Samples::new(5));
@@ -480,16 +494,24 @@ pub fn run(tier: Tier) -> i32 {
             }
         }
     });
+    let mut all_samples = live_traces;
+    all_samples.extend(samples.into_inner().unwrap().items);
     let cov = json!({
+        "states": live_states,
+        "transitions": live_transitions,
+        "traces_validated_against_impl": live_transitions,
+        "fair_completions_executed_on_impl": live_completions,
         "evaluations": evals.load(std::sync::atomic::Ordering::Relaxed),
         "distinct_nontrivial": scs.len(),
         "rule": "n real Alpenglow nodes (block producer, Rotor, blockstore, repair, Votor timers) in virtual time; menu: every crash set below 20% of stake (thorough: also below 40% for the slow path) x pre-stabilisation prefix {none, one node isolated, partition 2|n-2, all traffic held} released at 3.2 s, and per-node in/out link speeds {1 ms, slow}, and within-window reordering of consensus messages (later slots overtake earlier ones by 10/40 ms per slot); each scenario is one 12-second (thorough: 16-second) virtual run judged on the certificates seen on the wire and on finalized_slot() of every live node; every scenario is distinct and non-trivial",
-        "exhaustive": true,
+        "exhaustive": false,
+        "fault_menu_enumerated_completely": true,
+        "schedule_prefixes": "complete to the per-system depth bound listed under liveness_from_explored_prefixes (capped runs say so)",
         "virtual_ms_per_run": total_ms,
         "inconclusive": *inconclusive.lock().unwrap(),
         "liveness_from_explored_prefixes": live,
         "liveness_rule": "every state reached by the breadth-first exploration of schedule prefixes of 3 real node cores (real Votor + Pool each; Byzantine votes to single nodes, adversary-aggregated certificates, per-link FIFO deliveries incl. loop-back in every interleaving, blocks to single nodes, timeouts) is rebuilt and completed fairly (everything in flight delivered, held blocks repaired to the others, timeouts fired when nothing is in flight, Byzantine validator silent); on the completed world every slot of the window must be certified (skip or notarization/-fallback) or finalized at every node and the next window must have a ready parent",
-        "samples": samples.into_inner().unwrap().items,
+        "samples": all_samples,
     });
     report.finish(cov)
 }
